@@ -334,6 +334,7 @@ pub fn alphabet_h() -> Vec<Named> {
         ("tx_abort_node", Tx(vec![q::nodes_count(1)], true)),
         ("tx_abort_replace_steal", Tx(vec![q::values(vec![id(1)], vec![vec![kv(K, 3_i64)]]), q::aliases(&["a"], vec![id(2)])], true)),
         ("tx_abort_remove_index", Tx(vec![q::remove(vec![id(1)]), q::index(K)], true)),
+        ("tx_abort_drop_index", Tx(vec![q::remove_index(K), q::nodes_count(1)], true)),
     ]
 }
 
